@@ -914,6 +914,37 @@ class TExpr:
                 if name not in self.ftypes:
                     self.fail(f"field self.{name} of unknown type")
                 return (self.param(name, self.ftypes[name]), self.ftypes[name])
+            if x == "if":
+                # `if c { a } else { b }` as an expression
+                c = self.expr()
+                if c[1] != "B":
+                    self.fail("if condition is not a bool")
+                self.expect("{")
+                a = self.expr()
+                self.expect("}")
+                self.expect("else")
+                self.expect("{")
+                b = self.expr()
+                self.expect("}")
+                if a[1] == "?":
+                    a = self.coerce_lit(a, b[1])
+                b = self.coerce_lit(b, a[1])
+                if a[1] != b[1]:
+                    self.fail(f"if branches have types {a[1]} and {b[1]}")
+                return (f"(if {c[0]} then {a[0]} else {b[0]})", a[1])
+            if x == "calculate_cutoff":
+                # calculate_cutoff::<f32>(n, WindowFunction::W): an abstract function parameter named after the window
+                for tok in ("::", "<", "f32", ">", "("):
+                    self.expect(tok)
+                n = self.expr()
+                self.expect(",")
+                self.expect("WindowFunction")
+                self.expect("::")
+                k2, w = self.next()
+                self.expect(")")
+                if n[1] != "N":
+                    self.fail("calculate_cutoff on a non-usize length")
+                return (f"({self.param('cutoffOf_' + w, 'C')} {n[0]})", "S")
             if x == "integer":
                 # num_integer::gcd on usize
                 self.expect("::")
@@ -966,7 +997,7 @@ def impl_method_body(src, ty, method, item, trait=True):
 
 
 def lean_params(params):
-    return " ".join(f"({n} : {'Nat' if t == 'N' else 'ρ'})" for n, t in params)
+    return " ".join(f"({n} : {'Nat' if t == 'N' else ('Nat → ρ' if t == 'C' else 'ρ')})" for n, t in params)
 
 
 def gen_formula(item, lean_name, text, ftypes, consts, want_type, doc, extra_locals=None):
@@ -980,7 +1011,7 @@ def gen_formula(item, lean_name, text, ftypes, consts, want_type, doc, extra_loc
         e = p.coerce_lit(e, want_type)
     if e[1] != want_type:
         raise TranslateError(item, f"expression has type {e[1]}, expected {want_type}")
-    lty = {"N": "Nat", "F": "ρ", "B": "Bool", "I": "Int"}[want_type]
+    lty = {"N": "Nat", "F": "ρ", "S": "ρ", "B": "Bool", "I": "Int"}[want_type]
     return (f"/-- {doc} -/\ndef {lean_name} {{ρ : Type}} [RNum ρ] {lean_params(p.params)} : {lty} :=\n  {e[0]}",
             [n for n, _ in p.params])
 
@@ -1101,6 +1132,34 @@ def gen_formulas(item_prefix="G7"):
                     f"FftFixedIn::output_frames_max: {nm}", loc)
             last = ob.strip().split(";")[-1].strip()
             add("fftIn_omax_result", last, ftT, {}, "N", "FftFixedIn::output_frames_max: result", loc)
+    # ---- FftResampler (the per-block unit): cutoff, table arguments, tap scaling, number of bins kept
+    ftU = {"fft_size_in": "N", "fft_size_out": "N"}
+    m = re.search(r"impl<T>\s+FftResampler<T>", syn)
+    if not m:
+        raise TranslateError("G7.fftUnit", "impl FftResampler not found")
+    implU, _ = block_after(syn, m.end(), "G7.fftUnit")
+    newU = strip_log_macros(fn_body(implU, "new", "G7.fftUnit")[1])
+    runU = fn_body(implU, "resample_unit", "G7.fftUnit")[1]
+    add("fftUnit_cutoff", find_stmt(newU, r"let\s+cutoff\s*=\s*(if.*?\})\s*;", "G7.fftUnit_cutoff"), ftU, {}, "S",
+        "FftResampler::new: anti-aliasing cutoff (f32)")
+    add("fftUnit_new_len", find_stmt(runU, r"let\s+new_len\s*=\s*(if.*?\})\s*;", "G7.fftUnit_new_len"), ftU, {}, "N",
+        "FftResampler::resample_unit: number of spectrum bins kept")
+    ms = re.search(r"let\s+sinc\s*=\s*make_sincs::<T>\(\s*(\w+)\s*,\s*(\d+)\s*,\s*(\w+)\s*,\s*WindowFunction::(\w+)\s*\)\s*;", newU)
+    if not ms or ms.group(1) != "fft_size_in" or ms.group(3) != "cutoff":
+        raise TranslateError("G7.fftUnit_make_sincs", "FftResampler::new: `let sinc = make_sincs::<T>(fft_size_in, <k>, cutoff, WindowFunction::<W>)` not found")
+    wname = ms.group(4)[0].lower() + ms.group(4)[1:]
+    out.append(f"/-- FftResampler::new: `make_sincs::<T>(fft_size_in, {ms.group(2)}, cutoff, WindowFunction::{ms.group(4)})` -/")
+    out.append(f"def fftUnit_sinc_factor : Nat := {ms.group(2)}")
+    out.append(f"def fftUnit_window : Window := .{wname}")
+    out.append("")
+    mt = re.search(r"for\s*\(n,\s*f\)\s*in\s*filter_t\.iter_mut\(\)\.enumerate\(\)\.take\((\w+)\)\s*\{\s*\*f\s*=\s*sinc\[0\]\[n\]\s*/\s*T::coerce\((.*?)\)\s*;\s*\}", newU)
+    if not mt or mt.group(1) != "fft_size_in":
+        raise TranslateError("G7.fftUnit_taps", "FftResampler::new: tap loop `*f = sinc[0][n] / T::coerce(..)` over fft_size_in taps not found")
+    add("fftUnit_tap_divisor", mt.group(2), ftU, {}, "N", "FftResampler::new: divisor of the filter taps")
+    mb = re.search(r"let\s+mut\s+filter_t\s*:\s*Vec<T>\s*=\s*vec!\[T::zero\(\);\s*(.*?)\]\s*;", newU)
+    if not mb:
+        raise TranslateError("G7.fftUnit_filter_len", "FftResampler::new: filter_t allocation not found")
+    add("fftUnit_filter_len", mb.group(1), ftU, {}, "N", "FftResampler::new: length of the zero-padded filter")
     # parameter orders, for the tie lemmas
     out.append("/-- which struct fields / locals each generated formula reads, in order of first use: a formula that starts reading a")
     out.append("    different field (e.g. `resample_ratio_original` instead of `resample_ratio`) changes this table -/")
